@@ -10,6 +10,7 @@ import numpy as np
 
 from vf import common, gen, refmdp, shipped
 
+SIBLING_EVERY = 3      # every n-th case is followed by a same-shape sibling problem/solver in the same process (vf/worker.py)
 LEVEL = "exploration"
 TECHNIQUE = "reference-model oracle: LP / policy-iteration optimal gain, stationary gain of the returned policy, optimality-equation residual, bounded-drift continuation"
 RULE = ("cases = unichain aperiodic generated MDPs (every state-action reaches a hub state with probability "
